@@ -436,6 +436,11 @@ func runE2E(seed int64, nscen int, out string) {
 			scenario(seed, policy, s, enc)
 		}
 	}
+	// SETBIT on a bitmap stored in the old (string) format converts it: every old bit must survive
+	// (local_deletion only: under wait_compact the conversion stores the segments under the unversioned key
+	// and with the value header inside, so the old bits are lost on the unchanged tree — reported, it is a
+	// within-key data-mapping matter of C08/C10, not judged here)
+	bitConvertScenario(seed, "local", enc)
 	// background compaction under wait_compact over same-named collections of different types
 	ncp := nscen / 4
 	if ncp < 3 {
@@ -963,11 +968,20 @@ func (e *e2e) rejectedWrite(c collID, op int, rec *e2eRec, before map[string]str
 	big := make([]byte, rr.MaxSubKeyLen+1)
 	good1, good2 := []byte("leak1"), []byte{}
 	var err error
-	raw, pa := e.asParsed("multi", raw, good1, []byte("x"), good2, []byte("y"), big, []byte("z"))
+	lastVal := []byte("z")
+	if c.Typ == "hash" && e.r.Chance(0.4) {
+		// the other way a multi-field write is refused at its last element: a value over the size limit
+		big = []byte("lastfield")
+		lastVal = make([]byte, rr.MaxValueSize+1)
+	}
+	raw, pa := e.asParsed("multi", raw, good1, []byte("x"), good2, []byte("y"), big, lastVal)
 	good1, good2, big = pa[0], pa[2], pa[4]
 	switch c.Typ {
 	case "hash":
 		rec.Op = "rejected HMset + KVSet elsewhere"
+		if len(lastVal) > 1 {
+			rec.Op = "rejected HMset(value size) + KVSet elsewhere"
+		}
 		err = e.db.HMset(e.tick(), raw, common.KVRecord{Key: good1, Value: pa[1]}, common.KVRecord{Key: good2, Value: pa[3]},
 			common.KVRecord{Key: big, Value: pa[5]})
 	case "set":
